@@ -16,11 +16,31 @@ type Ev struct {
 	Instr ssa.Instruction
 	C     *ssa.CallCommon
 	Kind  string // "call", "defer" (run at function exit), "go"
+	fr    *frame
+}
+
+// frame is one activation on a path: the function being walked and, for a
+// helper that is walked on behalf of its caller (see inlinable), how its
+// parameters read in the caller's terms.
+type frame struct {
+	fn       *ssa.Function
+	pred     map[*ssa.BasicBlock]*ssa.BasicBlock
+	blocks   []*ssa.BasicBlock
+	onPath   map[*ssa.BasicBlock]bool
+	subst    map[*ssa.Parameter]string
+	callVals map[*ssa.Call][]string
+	defers   []Ev
+	parent   *frame
+	depth    int
 }
 
 // Path is one acyclic control-flow path through a function (DESIGN E3/E6):
 // the blocks, the branch atoms assumed along it (phis resolved along the
-// path), the calls in execution order and how it ends.
+// path), the calls in execution order and how it ends. Calls to helper
+// functions that did not exist on the reference tree are walked through
+// (their blocks, atoms and calls become part of the path, in the caller's
+// terms), so extracting part of a function into a new helper does not change
+// what the rules see.
 type Path struct {
 	Fn     *ssa.Function
 	Blocks []*ssa.BasicBlock
@@ -30,11 +50,79 @@ type Path struct {
 	Ret    *ssa.Return // nil when the path ends in a panic or loops back
 	End    string      // "return", "panic", "loop"
 	D      *D
-	pred   map[*ssa.BasicBlock]*ssa.BasicBlock
+	frames map[*ssa.Function]*frame
+	top    *frame
+	p      *Prog
 }
 
 // MaxPaths bounds the enumeration; exceeding it makes the result incomplete.
 const MaxPaths = 60000
+
+// maxInlineDepth bounds walking into new helpers.
+const maxInlineDepth = 3
+
+func (p *Prog) frameD(fr *frame, ident bool) *D {
+	d := &D{P: p, CallIdentity: ident}
+	pred := fr.pred
+	d.PhiVal = func(ph *ssa.Phi) ssa.Value {
+		pb, ok := pred[ph.Block()]
+		if !ok {
+			return nil
+		}
+		for i, q := range ph.Block().Preds {
+			if q == pb {
+				return ph.Edges[i]
+			}
+		}
+		return nil
+	}
+	d.LoadVal = func(u *ssa.UnOp) ssa.Value {
+		a, ok := u.X.(*ssa.Alloc)
+		if !ok {
+			return nil
+		}
+		var last ssa.Value
+		for _, b := range fr.blocks {
+			for _, ins := range b.Instrs {
+				if ins == u {
+					return last
+				}
+				if s, ok := ins.(*ssa.Store); ok && s.Addr == a {
+					last = s.Val
+				}
+			}
+		}
+		return nil
+	}
+	d.Subst = fr.subst
+	d.CallVal = func(c *ssa.Call) []string { return fr.callVals[c] }
+	return d
+}
+
+// inlinable: a helper that did not exist on the reference tree, defined in
+// production code, called statically.
+func (p *Prog) inlinable(c *ssa.CallCommon) *ssa.Function {
+	h := c.StaticCallee()
+	if h == nil || len(h.Blocks) == 0 || h.Parent() != nil || !p.InProd(h) || !IsNewFunc(h) {
+		return nil
+	}
+	return h
+}
+
+func copyFrame(fr *frame) *frame {
+	if fr == nil {
+		return nil
+	}
+	n := &frame{fn: fr.fn, pred: map[*ssa.BasicBlock]*ssa.BasicBlock{}, blocks: append([]*ssa.BasicBlock{}, fr.blocks...),
+		subst: fr.subst, callVals: map[*ssa.Call][]string{}, depth: fr.depth}
+	for k, v := range fr.pred {
+		n.pred[k] = v
+	}
+	for k, v := range fr.callVals {
+		n.callVals[k] = v
+	}
+	return n
+}
 
 // Paths enumerates the acyclic paths of fn from its entry block. A branch is
 // not taken when it contradicts an atom already assumed on the path
@@ -47,117 +135,153 @@ func (p *Prog) Paths(fn *ssa.Function) (paths []*Path, complete bool) {
 	complete = true
 	type state struct {
 		blocks []*ssa.BasicBlock
-		onPath map[*ssa.BasicBlock]bool
-		pred   map[*ssa.BasicBlock]*ssa.BasicBlock
 		atoms  []Atom
 		atomAt []int
 		keys   map[string]bool // identity keys → polarity
 		evs    []Ev
-		defers []Ev
+		// snapshots of finished helper frames, for descriptors of their values
+		done map[*ssa.Function]*frame
 	}
-	var rec func(st *state, b *ssa.BasicBlock)
-	mkD := func(st *state, ident bool) *D {
-		d := &D{P: p, CallIdentity: ident}
-		pred := st.pred
-		blocks := st.blocks
-		d.LoadVal = func(u *ssa.UnOp) ssa.Value {
-			a, ok := u.X.(*ssa.Alloc)
-			if !ok {
-				return nil
-			}
-			var last ssa.Value
-			for _, b := range blocks {
-				for _, ins := range b.Instrs {
-					if ins == u {
-						return last
-					}
-					if s, ok := ins.(*ssa.Store); ok && s.Addr == a {
-						last = s.Val
-					}
-				}
-			}
-			return nil
-		}
-		d.PhiVal = func(ph *ssa.Phi) ssa.Value {
-			pb, ok := pred[ph.Block()]
-			if !ok {
-				return nil
-			}
-			for i, q := range ph.Block().Preds {
-				if q == pb {
-					return ph.Edges[i]
-				}
-			}
-			return nil
-		}
-		return d
-	}
-	finish := func(st *state, end string, ret *ssa.Return) {
+	st := &state{keys: map[string]bool{}, done: map[*ssa.Function]*frame{}}
+	top := &frame{fn: fn, pred: map[*ssa.BasicBlock]*ssa.BasicBlock{}, onPath: map[*ssa.BasicBlock]bool{}, callVals: map[*ssa.Call][]string{}}
+
+	finish := func(end string, ret *ssa.Return) {
 		if len(paths) >= MaxPaths {
 			complete = false
 			return
 		}
 		pt := &Path{Fn: fn, Blocks: append([]*ssa.BasicBlock{}, st.blocks...), Atoms: append([]Atom{}, st.atoms...), AtomAt: append([]int{}, st.atomAt...),
-			Evs: append([]Ev{}, st.evs...), Ret: ret, End: end}
-		pt.pred = map[*ssa.BasicBlock]*ssa.BasicBlock{}
-		for k, v := range st.pred {
-			pt.pred[k] = v
+			Evs: append([]Ev{}, st.evs...), Ret: ret, End: end, p: p, frames: map[*ssa.Function]*frame{}}
+		pt.top = copyFrame(top)
+		pt.frames[fn] = pt.top
+		for f, fr := range st.done {
+			pt.frames[f] = fr
 		}
-		st2 := &state{pred: pt.pred, blocks: pt.Blocks}
-		pt.D = mkD(st2, false)
+		// events keep pointing at live frames: re-point them at the snapshots
+		for i := range pt.Evs {
+			if fr := pt.Evs[i].fr; fr != nil {
+				if snap, ok := pt.frames[fr.fn]; ok {
+					pt.Evs[i].fr = snap
+				}
+			}
+		}
+		pt.D = p.frameD(pt.top, false)
 		paths = append(paths, pt)
 	}
-	rec = func(st *state, b *ssa.BasicBlock) {
+
+	// walk continues fr at instruction idx of block b; k is called when fr
+	// returns (nil for the top frame).
+	var walk func(fr *frame, b *ssa.BasicBlock, idx int, k func(ret *ssa.Return))
+	enter := func(fr *frame, b *ssa.BasicBlock, from *ssa.BasicBlock, k func(ret *ssa.Return)) {
 		if !complete {
 			return
 		}
-		if st.onPath[b] {
-			finish(st, "loop", nil)
+		if fr.onPath[b] {
+			finish("loop", nil)
 			return
 		}
-		st.onPath[b] = true
+		oldPred, hadPred := fr.pred[b]
+		if from != nil {
+			fr.pred[b] = from
+		}
+		fr.onPath[b] = true
+		fr.blocks = append(fr.blocks, b)
 		st.blocks = append(st.blocks, b)
-		nEvs, nDef := len(st.evs), len(st.defers)
+		walk(fr, b, 0, k)
+		st.blocks = st.blocks[:len(st.blocks)-1]
+		fr.blocks = fr.blocks[:len(fr.blocks)-1]
+		fr.onPath[b] = false
+		if from != nil {
+			if hadPred {
+				fr.pred[b] = oldPred
+			} else {
+				delete(fr.pred, b)
+			}
+		}
+	}
+	walk = func(fr *frame, b *ssa.BasicBlock, idx int, k func(ret *ssa.Return)) {
+		if !complete {
+			return
+		}
+		nEvs, nDef := len(st.evs), len(fr.defers)
 		defer func() {
-			st.onPath[b] = false
-			st.blocks = st.blocks[:len(st.blocks)-1]
 			st.evs = st.evs[:nEvs]
-			st.defers = st.defers[:nDef]
+			fr.defers = fr.defers[:nDef]
 		}()
-		for _, ins := range b.Instrs {
+		for i := idx; i < len(b.Instrs); i++ {
+			ins := b.Instrs[i]
 			switch x := ins.(type) {
 			case *ssa.Call:
-				st.evs = append(st.evs, Ev{x, x.Common(), "call"})
+				st.evs = append(st.evs, Ev{x, x.Common(), "call", fr})
+				if h := p.inlinable(x.Common()); h != nil && fr.depth < maxInlineDepth && !onStack(fr, h) {
+					// walk through the new helper in the caller's terms
+					d := p.frameD(fr, false)
+					nf := &frame{fn: h, pred: map[*ssa.BasicBlock]*ssa.BasicBlock{}, onPath: map[*ssa.BasicBlock]bool{}, callVals: map[*ssa.Call][]string{},
+						subst: map[*ssa.Parameter]string{}, parent: fr, depth: fr.depth + 1}
+					for j, q := range h.Params {
+						if j < len(x.Common().Args) {
+							nf.subst[q] = d.Of(x.Common().Args[j])
+						}
+					}
+					call, blk, next := x, b, i+1
+					enter(nf, h.Blocks[0], nil, func(ret *ssa.Return) {
+						// helper returned: its results, in the caller's terms
+						var vals []string
+						if ret != nil {
+							hd := p.frameD(nf, false)
+							for _, rv := range ret.Results {
+								vals = append(vals, hd.Of(rv))
+							}
+						}
+						old, had := fr.callVals[call]
+						fr.callVals[call] = vals
+						oldDone, hadDone := st.done[h]
+						st.done[h] = copyFrame(nf)
+						walk(fr, blk, next, k)
+						if hadDone {
+							st.done[h] = oldDone
+						} else {
+							delete(st.done, h)
+						}
+						if had {
+							fr.callVals[call] = old
+						} else {
+							delete(fr.callVals, call)
+						}
+					})
+					return
+				}
 			case *ssa.Go:
-				st.evs = append(st.evs, Ev{x, x.Common(), "go"})
+				st.evs = append(st.evs, Ev{x, x.Common(), "go", fr})
 			case *ssa.Defer:
-				st.defers = append(st.defers, Ev{x, x.Common(), "defer"})
+				fr.defers = append(fr.defers, Ev{x, x.Common(), "defer", fr})
 			case *ssa.RunDefers:
-				for i := len(st.defers) - 1; i >= 0; i-- {
-					st.evs = append(st.evs, st.defers[i])
+				for j := len(fr.defers) - 1; j >= 0; j-- {
+					st.evs = append(st.evs, fr.defers[j])
 				}
 			case *ssa.Return:
-				finish(st, "return", x)
+				if k != nil {
+					k(x)
+				} else {
+					finish("return", x)
+				}
 				return
 			case *ssa.Panic:
-				finish(st, "panic", nil)
+				finish("panic", nil)
 				return
 			case *ssa.Jump:
-				st.pred[b.Succs[0]] = b
-				rec(st, b.Succs[0])
+				enter(fr, b.Succs[0], b, k)
 				return
 			case *ssa.If:
-				for i, succ := range b.Succs {
-					pol := i == 0
-					dI := mkD(st, true)
+				for si, succ := range b.Succs {
+					pol := si == 0
+					dI := p.frameD(fr, true)
 					if val, known := constCond(x.Cond, dI.PhiVal); known && val != pol {
 						continue // comparison of two constants on this path: other branch infeasible
 					}
 					key := dI.NormAtom(x.Cond, pol)
-					// constant condition?
 					if key.S == "true" || key.S == "false" {
-						val := (key.S == "true") == key.Pol
-						if !val {
+						if ((key.S == "true") == key.Pol) == false {
 							continue
 						}
 					}
@@ -166,17 +290,10 @@ func (p *Prog) Paths(fn *ssa.Function) (paths []*Path, complete bool) {
 					}
 					_, had := st.keys[key.S]
 					st.keys[key.S] = key.Pol
-					disp := mkD(st, false).NormAtom(x.Cond, pol)
+					disp := p.frameD(fr, false).NormAtom(x.Cond, pol)
 					st.atoms = append(st.atoms, disp)
 					st.atomAt = append(st.atomAt, len(st.blocks)-1)
-					oldPred, hadPred := st.pred[succ]
-					st.pred[succ] = b
-					rec(st, succ)
-					if hadPred {
-						st.pred[succ] = oldPred
-					} else {
-						delete(st.pred, succ)
-					}
+					enter(fr, succ, b, k)
 					st.atoms = st.atoms[:len(st.atoms)-1]
 					st.atomAt = st.atomAt[:len(st.atomAt)-1]
 					if !had {
@@ -186,15 +303,40 @@ func (p *Prog) Paths(fn *ssa.Function) (paths []*Path, complete bool) {
 				return
 			}
 		}
-		// block without terminator handled above (e.g. select lowered blocks)
 		for _, succ := range b.Succs {
-			st.pred[succ] = b
-			rec(st, succ)
+			enter(fr, succ, b, k)
 		}
 	}
-	st := &state{onPath: map[*ssa.BasicBlock]bool{}, pred: map[*ssa.BasicBlock]*ssa.BasicBlock{}, keys: map[string]bool{}}
-	rec(st, fn.Blocks[0])
+	enter(top, fn.Blocks[0], nil, nil)
 	return paths, complete
+}
+
+func onStack(fr *frame, h *ssa.Function) bool {
+	for f := fr; f != nil; f = f.parent {
+		if f.fn == h {
+			return true
+		}
+	}
+	return false
+}
+
+// dFor returns the descriptor context of the frame that owns v.
+func (pt *Path) dFor(v ssa.Value) *D {
+	var fn *ssa.Function
+	switch x := v.(type) {
+	case ssa.Instruction:
+		fn = x.Parent()
+	case *ssa.Parameter:
+		fn = x.Parent()
+	case *ssa.FreeVar:
+		fn = x.Parent()
+	}
+	if fn != nil && fn != pt.Fn {
+		if fr, ok := pt.frames[fn]; ok {
+			return pt.p.frameD(fr, false)
+		}
+	}
+	return pt.D
 }
 
 // Has reports whether the path assumed the atom (given as "+s" or "-s").
@@ -242,7 +384,7 @@ func (pt *Path) Desc(v ssa.Value) string {
 			}
 		}
 	}
-	return pt.D.Of(v)
+	return pt.dFor(v).Of(v)
 }
 
 func (pt *Path) lastStore(a *ssa.Alloc, before ssa.Instruction) ssa.Value {
@@ -266,6 +408,12 @@ func (pt *Path) ArgDesc(e Ev, i int) string {
 	v := Arg(e.C, i)
 	if v == nil {
 		return "<missing>"
+	}
+	if e.fr != nil && e.fr.fn != pt.Fn {
+		// an event inside a helper that was walked through: in the caller's terms
+		if _, isConst := v.(*ssa.Const); !isConst {
+			return pt.p.frameD(e.fr, false).Of(v)
+		}
 	}
 	return pt.Desc(v)
 }
@@ -398,7 +546,7 @@ func (pt *Path) Stores() []StoreEv {
 	for _, b := range pt.Blocks {
 		for _, ins := range b.Instrs {
 			if st, ok := ins.(*ssa.Store); ok {
-				out = append(out, StoreEv{st, pt.D.Of(st.Addr), pt.Desc(st.Val)})
+				out = append(out, StoreEv{st, pt.dFor(st.Addr).Of(st.Addr), pt.Desc(st.Val)})
 			}
 		}
 	}
